@@ -136,11 +136,29 @@ theorem destroy_releases_all (confCap : Nat) (t : Triple) (m0 : Mem) (ops : List
     exact ⟨d0, n2, Deque.memD_norm (k := 0) (j := 2) (by simpa using Deque.memD_trans hd hrun)⟩
   · exact Or.inr ⟨n2, n3⟩
 
+/-- ledger consistency: the two blocks a deque owns (header, buffer) are accounted for on its triple.  It is
+established by the constructor and the builders and preserved by every operation, so it is not an extra
+assumption about reachable states -/
+def Owns (d : Deque) (m : Mem) : Prop := 2 ≤ Deque.liveOf d.triple m
+
+theorem new_owns (confCap : Nat) (t : Triple) (m : Mem) (d : Deque) (h : (Deque.new confCap t m).2.1 = some d) :
+    Owns d (Deque.new confCap t m).2.2 := by
+  rcases Deque.new_spec confCap t m with ⟨_, d', n2, _, _, _, n6, n7, _⟩ | ⟨_, n2, _⟩
+  · rw [n2] at h; cases h
+    unfold Owns; rw [n6]; have := n7.1; omega
+  · rw [n2] at h; cases h
+
+theorem step_owns (d : Deque) (m : Mem) (op : Op) (hi : d.Inv) (ho : Owns d m) :
+    Owns (stepM d m op).2.1 (stepM d m op).2.2 := by
+  obtain ⟨_, s2, s3⟩ := step_safe d m op hi
+  unfold Owns at ho ⊢
+  rw [s3]; have := s2.1; omega
+
 /-- **(c) callbacks**: `foreach` — and therefore `remove_all_cb` and `destroy_cb`, which are `foreach`
 followed by `remove_all` (and `destroy`) — hands each held element to the callback exactly once, front to
 back: the callback log is the abstraction; afterwards the deque is empty and `destroy_cb` has released
 both blocks through the deque's triple -/
-theorem callbacks_visit_each_once (d : Deque) (m : Mem) (hi : d.Inv) (hlive : 2 ≤ Deque.liveOf d.triple m) :
+theorem callbacks_visit_each_once (d : Deque) (m : Mem) (hi : d.Inv) (hlive : Owns d m) :
     (d.foreach m).1 = d.abs ∧ (d.foreach m).2 = m ∧ d.removeAll.abs = [] ∧ d.removeAll.Inv ∧
     Deque.memD d.triple 0 2 (d.removeAll.destroy (d.foreach m).2) m := by
   obtain ⟨f1, f2⟩ := Deque.foreach_spec d m hi
